@@ -31,7 +31,7 @@ PROPS["C16"] = {
              "TestC16Int128FromScalar": T(10000, 200000),
              "TestC16Constants": LIST(),
          }},
-        {"pkg": "curve", "configs": {"quick": ["default", "purego", "force32bit"], "thorough": ["default", "noavx2", "purego", "force32bit", "386"]},
+        {"pkg": "curve", "configs": {"quick": ["default", "purego", "force32bit", "386x64"], "thorough": ["default", "noavx2", "purego", "force32bit", "386", "386x64"]},
          "tests": {
              "TestC16Equation": T(6000, 60000, shards={"quick": 8, "thorough": 16}),
          }},
